@@ -451,27 +451,15 @@ Definition p_links (c : libcase) (o : note_obs) : bool :=
   | _, _ => false
   end.
 
-(* class "inline link resolved without the directory" (F9): a note in a sub-directory holds
-   an inline (non-block) note link *)
 Definition para_is_block_ref (b : dblock) : bool :=
   match b with DPara _ l => para_is_ref l | _ => false end.
-Fixpoint has_inline_note_link (b : dblock) {struct b} : bool :=
-  let fix go (l : list dblock) : bool := match l with [] => false | x :: r => has_inline_note_link x || go r end in
-  let fix goi (l : list (list dblock)) : bool := match l with [] => false | x :: r => go x || goi r end in
-  match b with
-  | DPara _ _ => negb (para_is_block_ref b) && existsb (fun t => is_note_kind (fst (fst t))) (block_links b)
-  | DHeader _ _ _ | DTable _ _ _ _ => existsb (fun t => is_note_kind (fst (fst t))) (block_links b)
-  | DQuote _ bs => go bs
-  | DOList its | DBList its => goi its
-  | _ => false
-  end.
 
 (* ---------- the four runners ------------------------------------------------------------------ *)
 
 (* class 1 (F-ESC) also through a TITLE: a refreshed link is given the title of the note it names as
    its text, unescaped like any other text (`# a ]]` in b makes `[t](b)` come back as `[a ]]](b)`).
    So class 1 holds as well when the note has a refreshable link (regular, to a note) to a note of
-   the library - under either keying, from the note's directory or by the raw url (F9) - whose title
+   the library - the note the url names from the note's directory - whose title
    (the plain text of a leading heading, Library.extract_ref_text) is not inert text. *)
 Definition note_title_inert (n : note_in) : bool :=
   match ni_blocks n with
@@ -485,7 +473,7 @@ Definition linked_titles_inert (c : libcase) (o : note_obs) : bool :=
       forallb (fun t => let '(k, u, _) := t in
                  negb (String.eqb k "ref") ||
                  forallb (fun n => let key := key_name (ni_name n) in
-                            negb (String.eqb key (from_rel_link_url u d) || String.eqb key (key_from_file_name u))
+                            negb (String.eqb key (from_rel_link_url u d))
                             || note_title_inert n) (lc_notes c))
               (links_of bs)
   | None => true
@@ -531,22 +519,11 @@ Definition run_C01 (c : libcase) : verdict :=
 Definition run_C02 (c : libcase) : verdict :=
   run_notes c (fun o => flag 1 (p_fixpoint o)) (base_classes c).
 
-(* class "inline link keyed without the directory" (F9): the note holds an inline note link
-   whose raw url (what iwe uses as the key) is not the key it resolves to from the note's
-   directory *)
-Definition f9_note (o : note_obs) (bs : list dblock) : bool :=
-  let d := key_parent (no_key o) in
-  existsb (fun b => negb (para_is_block_ref b) &&
-             existsb (fun t => let '(k, u, _) := t in
-                        is_note_kind k && negb (String.eqb (key_from_file_name u) (from_rel_link_url u d)))
-                     (block_links b))
-          (* links of nested blocks are reached through block_links of the container *)
-          bs.
-
+(* (the former class 6, F-INLINEDIR "inline link keyed without the directory", is gone: an inline note link
+   is kept by the key it names from the note's directory, like a block reference; [link_ok] always compared
+   resolved destinations and demanded the title of the resolved note, so a failure there is a violation now) *)
 Definition run_C06 (c : libcase) : verdict :=
-  run_notes c (fun o => flag 1 (p_links c o))
-    (fun o => base_classes c o ++
-              flag 6 (negb match note_blocks c (no_key o) with Some bs => f9_note o bs | None => false end)).
+  run_notes c (fun o => flag 1 (p_links c o)) (base_classes c).
 
 Definition run_C07 (c : libcase) : verdict :=
   run_notes c (fun o => flag 1 (p_skeleton c o) ++ flag 2 (p_well_nested o) ++ flag 3 (p_identity c o)) (base_classes c).
